@@ -119,3 +119,36 @@ Theorem C11_merger_same_result : forall mf calls srcs1 srcs2 ess,
   cm_run rsrc rsnext mf calls (S (total_len ess)) srcs1 = cm_run rsrc rsnext mf calls (S (total_len ess)) srcs2.
 Proof. intros mf calls srcs1 srcs2 ess H1 H2. rewrite (merge_of_readers mf calls srcs1 ess H1), (merge_of_readers mf calls srcs2 ess H2). reflexivity. Qed.
 Print Assumptions C11_merger_same_result.
+
+(* ================= the sorter over a chunk storage that splits and interrupts =================
+   FileSorter.sched_sorter_run: the sorter writing every chunk through the writer model over a sink that
+   accepts bytes according to a benign schedule of its own (one per chunk), re-opening every chunk with its
+   trailer reads under benign schedules and reading it through loaders under per-load benign schedules and
+   arbitrary buffer sizes.  It returns what the list-level sorter returns (C07_sorter: the specification's
+   output), whatever the schedules - unless a chunk file leaves the 2^64-byte envelope. *)
+From Grenad.model Require Import Sorter.
+From Grenad.proofs Require Import FileSorter.
+
+Theorem C11_sorter_chunk_storage : forall compress decompress wc,
+  (forall b z, compress (wc_codec wc) (wc_level wc) b = Done z -> decompress (wc_codec wc) z = Done b) ->
+  (forall b, exists z, compress (wc_codec wc) (wc_level wc) b = Done z) ->
+  wc_levels wc < 256 -> 1 <= wc_interval wc -> wc_codec wc <= 5 ->
+  forall mf : mergefn, (forall n k vs v, mf n k vs = Done v -> len v <= U32_MAX) ->
+  forall wsched osched lsched lreqs,
+  (forall n, benign (wsched n)) -> (forall n i k, benign (osched n i k)) -> (forall n i ord, benign (lsched n i ord)) ->
+  (forall n i ord, Forall (fun r => 1 <= r) (lreqs n i ord)) ->
+  forall c ins, len ins + 1 <= U32_MAX ->
+  sched_sorter_run compress decompress wc wsched osched lsched lreqs c mf ins = Fail EFuel \/
+  sched_sorter_run compress decompress wc wsched osched lsched lreqs c mf ins = sorter_run c mf ins.
+Proof. exact sched_sorter_refines. Qed.
+Print Assumptions C11_sorter_chunk_storage.
+
+(* non-vacuity: one-byte-at-a-time sinks with interruptions, sources that interrupt every load: same result *)
+Example C11_sorter_chunk_storage_example :
+  let wc := mk_wcfg 0 0 16 1 1 in
+  let c := mk_scfg 64 false 2 48 in
+  let ins := [([3], [1]); ([1], [2]); ([3], [3]); ([2], [4]); ([1], [5])] in
+  sched_sorter_run compress_none decompress_none wc (fun _ => [RInterrupt; RAccept 1; RAccept 1; RInterrupt; RAccept 2])
+                   (fun _ _ _ => [RInterrupt; RAccept 1]) (fun _ _ _ => [RInterrupt; RAccept 3; RInterrupt]) (fun _ _ _ => [5; 1; 7]) c mf_concat ins
+  = sorter_run c mf_concat ins /\ sorter_run c mf_concat ins = Done [([1], [2; 5]); ([2], [4]); ([3], [1; 3])].
+Proof. cbv zeta. split; vm_compute; reflexivity. Qed.
